@@ -160,11 +160,41 @@ def runK : List String → Option String
   | ["dlat", kind, op, M, L, pr, pc, x] => do
       let M ← M.toNat?; let L ← L.toNat?; let pr ← pr.toNat?; let pc ← pc.toNat?
       let x ← parseMat? (K := K) x
-      let (ms, ls, mask) ← layoutOf kind M L pr pc
-      let ab := recurrenceWeights (K := K) Num.sqrt ms ls mask
-      if op = "cos" then pure (renderMat (cosLatDDlat ls ab.1 ab.2 x))
-      else if op = "sec" then pure (renderMat (secLatDDlatCos2 ls ab.1 ab.2 x))
+      if kind = "R" then
+        if op = "cos" then pure (renderMat (realCosLatDDlat Num.sqrt M L x))
+        else if op = "sec" then pure (renderMat (realSecLatDDlatCos2 Num.sqrt M L x))
+        else none
+      else if kind = "F" then
+        if op = "cos" then pure (renderMat (fastCosLatDDlat Num.sqrt M L pr pc x))
+        else if op = "sec" then pure (renderMat (fastSecLatDDlatCos2 Num.sqrt M L pr pc x))
+        else none
       else none
+  -- grad / div / curl / k_cross / integrate (`clip` is `0` or `1`); two results are joined by `|`
+  | ["grad", kind, M, L, pr, pc, r, clip, x] => do
+      let M ← M.toNat?; let L ← L.toNat?; let pr ← pr.toNat?; let pc ← pc.toNat?
+      let r ← Num.parse? (K := K) r; let x ← parseMat? (K := K) x
+      let g ← if kind = "R" then some (realCosLatGrad Num.sqrt M L r (clip = "1") x)
+              else if kind = "F" then some (fastCosLatGrad Num.sqrt M L pr pc r (clip = "1") x) else none
+      pure (renderTen [g.1, g.2])
+  | ["div", kind, M, L, pr, pc, r, clip, u, v] => do
+      let M ← M.toNat?; let L ← L.toNat?; let pr ← pr.toNat?; let pc ← pc.toNat?
+      let r ← Num.parse? (K := K) r; let u ← parseMat? (K := K) u; let v ← parseMat? (K := K) v
+      if kind = "R" then pure (renderMat (realDivCosLat Num.sqrt M L r (clip = "1") u v))
+      else if kind = "F" then pure (renderMat (fastDivCosLat Num.sqrt M L pr pc r (clip = "1") u v))
+      else none
+  | ["curl", kind, M, L, pr, pc, r, clip, u, v] => do
+      let M ← M.toNat?; let L ← L.toNat?; let pr ← pr.toNat?; let pc ← pc.toNat?
+      let r ← Num.parse? (K := K) r; let u ← parseMat? (K := K) u; let v ← parseMat? (K := K) v
+      if kind = "R" then pure (renderMat (realCurlCosLat Num.sqrt M L r (clip = "1") u v))
+      else if kind = "F" then pure (renderMat (fastCurlCosLat Num.sqrt M L pr pc r (clip = "1") u v))
+      else none
+  | ["kcross", u, v] => do
+      let u ← parseMat? (K := K) u; let v ← parseMat? (K := K) v
+      let g := kCross u v
+      pure (renderTen [g.1, g.2])
+  | ["integrate", r2, w, z] => do
+      let r2 ← Num.parse? (K := K) r2; let w ← parseVec? (K := K) w; let z ← parseMat? (K := K) z
+      pure (Num.render (integrate w r2 z))
   | _ => none
 
 def run : List String → Option String
